@@ -282,12 +282,9 @@ def run(desc, ctx):
         between = [t for t in spec.tx[ob['tx_at_close']:ob['tx_at_reopen']]]
         if between:
             V('retry:transmitted-while-the-link-was-closed', {'packets': [(t[0], hex(t[2]), t[3].hex()) for t in between[:4]]})
-    if ob.get('tx_final') != ob.get('tx_end') + 1 and ob.get('tx_final') is not None:
-        # close_link itself sends one zero setpoint before closing; anything else after it is a violation
-        extra = spec.tx[ob['tx_end']:ob['tx_final']]
-        extra = [t for t in extra if not ((t[2] >> 4) & 0xF == 3) and not ((t[2] >> 4) & 0xF == 15)]
-        if extra:
-            V('retry:transmitted-after-final-close_link', {'packets': [(t[0], hex(t[2]), t[3].hex()) for t in extra[:4]]})
+    # (send_packet calls that reach an already closed link are recorded separately by the link and are not
+    # transmissions; a retry that was already past the link test when close_link started may still go out
+    # before the link is actually closed - that is on an open link and allowed.)
     ctx.nontrivial((core.h64([(r['pattern'], r['T'], r['lose_tx'], r['lose_reply'], r['delay']) for r in reqs]), kind,
                     core.h64(sig)))
     ctx.sample({'kind': kind, 'requests': [{k: r[k] for k in ('pattern', 'T', 'at', 'lose_tx', 'lose_reply', 'delay')} for r in reqs][:4],
